@@ -89,7 +89,19 @@ def cxx(out, srcs, variant=None, flags=(), libs=()):
     deps = srcs + [os.path.abspath(__file__)]
     if variant:
         deps.append(os.path.join(libdir(variant), "libocca.so"))
-    if os.path.exists(out) and all(os.path.getmtime(out) >= os.path.getmtime(d) for d in deps):
+    sig = " ".join([variant or "-"] + list(flags) + list(libs) + srcs)
+    sigfile = out + ".cmd"
+    try:
+        same = open(sigfile).read() == sig
+    except OSError:
+        same = False
+    # also rebuild when any file next to the sources changed (included .cpp/.hpp files)
+    extra = []
+    for sdir in set(os.path.dirname(x) for x in srcs):
+        for root, _, files in os.walk(os.path.dirname(sdir)):
+            extra += [os.path.join(root, f) for f in files if f.endswith((".cpp", ".hpp", ".h"))]
+    deps += extra
+    if same and os.path.exists(out) and all(os.path.getmtime(out) >= os.path.getmtime(d) for d in deps):
         # headers of /repo may have changed: libocca.so's mtime moves when any
         # source changed, and public headers changing force a relink through it
         return out
@@ -104,6 +116,8 @@ def cxx(out, srcs, variant=None, flags=(), libs=()):
     cmd += list(libs)
     run(cmd)
     os.replace(out + ".tmp", out)
+    with open(sigfile, "w") as f:
+        f.write(sig)
     return out
 
 
